@@ -288,3 +288,52 @@ def pool_fit(prog, cg):
                           'ptr + size %s len: the loop allocates pools forever for the largest admitted record' % (hi, K, exit_cond['op']),
                           'record size <= %d < pool size %d' % (hi, K)))
     return RuleResult('POOL-FIT', obs, 2, {})
+
+
+def getc_char(prog, scope):
+    """GETC-CHAR: the result of getc()/fgetc()/FileIo::get_int8() is kept in an int as long as it is compared with EOF.
+    Stored in a char first, the data byte 0xff equals EOF (signed char) -- the reader stops in the middle of a binary file
+    and everything after it is placed at lower addresses -- or EOF never compares equal (unsigned char) and the loop never
+    ends."""
+    from nk.facts import walk as _walk
+    obs = []
+    for fn in sorted(prog.functions(scope), key=lambda f: (f.file, f.line)):
+        if not fn.blocks:
+            continue
+        k = 0
+        for c in sorted(fn.calls(), key=lambda x: x['i']):
+            q = (callee(c) or '').split('(')[0]
+            if q not in ('getc', 'fgetc', 'getchar', 'FileIo::get_int8'):
+                continue
+            p = fn.parent.get(c['i'])
+            while p is not None and p['k'] in ('ImplicitCastExpr', 'ParenExpr', 'CStyleCastExpr'):
+                p = fn.parent.get(p['i'])
+            d = t = name = None
+            if p is not None and p['k'] == 'BinaryOperator' and p.get('op') == '=':
+                l = strip(kids(p)[0])
+                if l['k'] == 'DeclRefExpr':
+                    d, t, name = l.get('d'), fn.type(l), l.get('n')
+            elif p is not None and p['k'] == 'DeclStmt':
+                for dd, i in zip([x for x in p.get('decls', ()) if x.get('init')], kids(p)):
+                    if any(x['i'] == c['i'] for x in _walk(i)):
+                        d, t, name = dd['d'], fn.types[dd['t']], dd['n']
+            if d is None:
+                continue
+            k += 1
+            narrow = (t or '').replace('const ', '') in ('char', 'unsigned char', 'signed char', 'uint8_t', 'int8_t')
+            cmp_eof = None
+            for n in fn.nodes.values():
+                if n['k'] == 'BinaryOperator' and n.get('op') in ('==', '!='):
+                    a, b = kids(n)
+                    for x, y in ((a, b), (b, a)):
+                        if const(y) == -1 and any(z['k'] == 'DeclRefExpr' and z.get('d') == d for z in _walk(x)):
+                            cmp_eof = n
+            bad = narrow and cmp_eof is not None
+            obs.append(Ob('GETC-CHAR', fn.file, c['l'], fn.q, 'read#%d:%s' % (k, name), VIOLATED if bad else DISCHARGED,
+                          '' if not bad else '`%s` (%s) receives the result of %s and is then compared with EOF (line %d): a data byte 0xff '
+                          'is taken for the end of the file (or EOF is never seen), so a binary file is cut short or the loop never ends' % (
+                              name, t, q, cmp_eof['l']),
+                          'kept in %s%s' % (t, '' if cmp_eof is None else ' and compared with EOF as an int'), False))
+    if len(obs) < 10:
+        raise AnalysisBroken('GETC-CHAR: only %d stored getc results' % len(obs))
+    return RuleResult('GETC-CHAR', obs, 10, {})
